@@ -104,7 +104,7 @@ Print Assumptions C17_wiring.
 (* ---- tie to the source: the eight recording operations of AggregatedStats (src/stats/aggregated.rs)
    as translated on this run: any event sequence through the translated add_* methods leaves the
    counters the model's aggregated recorder has ---- *)
-Require RV.Model.GenSupport RV.Gen.Code RV.Proofs.CodeStats RV.Proofs.CodePerClient RV.Proofs.CodeReporter.
+Require RV.Model.GenSupport RV.Gen.Code RV.Proofs.CodeStats RV.Proofs.CodePerClient RV.Proofs.CodeReporter RV.Proofs.CodeTotals.
 Theorem C17_translated_aggregated_is_model :
   forall evs c, RV.Proofs.CodeStats.gen_agg_run c evs = Ok (fold_left agg_step evs c).
 Proof. exact RV.Proofs.CodeStats.gen_agg_run_model. Qed.
@@ -172,6 +172,46 @@ Theorem C17_reporter_pass_is_the_queue_models_drain :
     end.
 Proof. exact RV.Proofs.CodeReporter.q_run_drain_is_receive. Qed.
 Print Assumptions C17_reporter_pass_is_the_queue_models_drain.
+
+(* the totals the ServerStats trait reports, as translated from both recorders (the sums over the client
+   map written with iterator chains `.values().map(|&v| ..).sum()`; the aggregated counters): each is the
+   model's pc_total / cs_get, and — composed with C17_equiv — while no overflow occurs every total is the
+   same number whichever recorder the server runs with *)
+Theorem C17_translated_totals_are_model :
+  forall clients ov mx,
+  let st := mkpc clients ov mx in
+  RV.Gen.Code.gen_pc_num_rfc_requests clients = Ok (pc_total KRfcReq st)
+  /\ RV.Gen.Code.gen_pc_num_classic_requests clients = Ok (pc_total KClassicReq st)
+  /\ RV.Gen.Code.gen_pc_total_valid_requests clients = Ok (pc_total KRfcReq st + pc_total KClassicReq st)
+  /\ RV.Gen.Code.gen_pc_total_invalid_requests clients = Ok (pc_total KInvalid st)
+  /\ RV.Gen.Code.gen_pc_total_health_checks clients = Ok (pc_total KHealth st)
+  /\ RV.Gen.Code.gen_pc_total_failed_send_attempts clients = Ok (pc_total KFailed st)
+  /\ RV.Gen.Code.gen_pc_total_retried_send_attempts clients = Ok (pc_total KRetried st)
+  /\ RV.Gen.Code.gen_pc_num_rfc_responses_sent clients = Ok (pc_total KRfcResp st)
+  /\ RV.Gen.Code.gen_pc_num_classic_responses_sent clients = Ok (pc_total KClassicResp st)
+  /\ RV.Gen.Code.gen_pc_total_responses_sent clients = Ok (pc_total KRfcResp st + pc_total KClassicResp st)
+  /\ RV.Gen.Code.gen_pc_total_bytes_sent clients = Ok (pc_total_bytes st)
+  /\ RV.Gen.Code.gen_pc_total_unique_clients clients = Ok (lenN clients).
+Proof. exact RV.Proofs.CodeTotals.gen_pc_totals_model. Qed.
+Print Assumptions C17_translated_totals_are_model.
+
+Theorem C17_translated_totals_agree :
+  forall limit evs,
+  pc_overflows (fst (pc_run (pc_new limit) evs)) = 0 ->
+  let st := fst (pc_run (pc_new limit) evs) in
+  let c := agg_run evs in
+  RV.Gen.Code.gen_pc_total_valid_requests (pc_clients st)
+  = RV.Gen.Code.gen_agg_total_valid_requests (c_rfc_req c) (c_classic_req c) (c_invalid c) (c_health c) (c_rfc_resp c) (c_classic_resp c) (c_bytes c) (c_failed c) (c_retried c)
+  /\ RV.Gen.Code.gen_pc_total_invalid_requests (pc_clients st)
+  = RV.Gen.Code.gen_agg_total_invalid_requests (c_rfc_req c) (c_classic_req c) (c_invalid c) (c_health c) (c_rfc_resp c) (c_classic_resp c) (c_bytes c) (c_failed c) (c_retried c)
+  /\ RV.Gen.Code.gen_pc_total_responses_sent (pc_clients st)
+  = RV.Gen.Code.gen_agg_total_responses_sent (c_rfc_req c) (c_classic_req c) (c_invalid c) (c_health c) (c_rfc_resp c) (c_classic_resp c) (c_bytes c) (c_failed c) (c_retried c)
+  /\ RV.Gen.Code.gen_pc_total_bytes_sent (pc_clients st)
+  = RV.Gen.Code.gen_agg_total_bytes_sent (c_rfc_req c) (c_classic_req c) (c_invalid c) (c_health c) (c_rfc_resp c) (c_classic_resp c) (c_bytes c) (c_failed c) (c_retried c)
+  /\ RV.Gen.Code.gen_pc_total_health_checks (pc_clients st)
+  = RV.Gen.Code.gen_agg_total_health_checks (c_rfc_req c) (c_classic_req c) (c_invalid c) (c_health c) (c_rfc_resp c) (c_classic_resp c) (c_bytes c) (c_failed c) (c_retried c).
+Proof. exact RV.Proofs.CodeTotals.gen_totals_agree. Qed.
+Print Assumptions C17_translated_totals_agree.
 
 (* ---- tie to the source: the integer literals of the functions this property's model stands for
    (private constants, bounds, unit factors; the files are SiteMap.files_C17) are today the ones the
